@@ -270,6 +270,8 @@ var (
 	// a reduced zoo body: the Load-time rule sets (type patterns, text matchers, Contains, comment rules, Do) see
 	// in-memory text too
 	b.WriteString(zooBody(v+rot%2, -5))
+	// small declarations with and without doc comments (decls.go): behind the cut of the stale copies, so printed everywhere
+	b.WriteString(memDocDecls(v, k))
 	return b.String()
 }
 
